@@ -69,7 +69,7 @@ def cases(rng, budget, widx, nworkers, tier):
             (a, b), label = gen.gen_pair(rng, ca, cb, small=True)
             yield {"a": a, "b": b, "label": "carrier", "ls": rng.getrandbits(30), "carrier": True}
             continue
-        (a, b), label = gen.flat_pair(rng, ka, kb)
+        (a, b), label = gen.gen_pair(rng, ka, kb)
         yield C.maybe_hist({"a": a, "b": b, "label": label, "ls": rng.getrandbits(30)}, rng)
 
 
